@@ -3,7 +3,7 @@
 import ast
 import struct
 
-from .core import AnalysisError, iter_nodes, norm, unparse
+from .core import AnalysisError, iter_nodes, norm, unparse, cnorm, cnorm_text
 from . import astq
 from .astq import (parents, ancestors, calls_named, mentions_attr, mentions_name, definitions,
                    enclosing_loops, enclosing_ifs, const_int, attr_tail)
@@ -540,17 +540,15 @@ def rule_HS1(ctx, rep):
         return ifs[0]
     fw, fr = filt(wr, lw), filt(rd, lr)
     pw, pr = wr.params[1], rd.params[1]
-    cw = sorted(_swap_roles(norm(c), 'self.pid', pw) for c in _conjuncts(fw.test))
-    cr = sorted(norm(c).replace(pr, pw) if False else norm(c) for c in _conjuncts(fr.test))
-    cr = sorted(c.replace(pr, '\1').replace('\1', pw) for c in cr) if pr != pw else cr
+    cw = cnorm_text(_swap_roles(cnorm(fw.test), 'self.pid', pw))
+    cr = cnorm_text(cnorm(fr.test).replace(pr, '\1').replace('\1', pw)) if pr != pw else cnorm(fr.test)
     if cw == cr:
         rep.ok('HS1', rd, fr.test, 'reader filter == writer filter under the role swap self.pid <-> peer_pid')
     else:
         rep.bad('HS1', rd, fr.test, f'reader expects keys for subsets with `{norm(fr.test)}`, writer sends for `{norm(fw.test)}`: under the role '
                 'swap these differ, so keys are stored under wrong subsets / the stream is mis-cut')
     sv = norm(lw.target)
-    want = sorted([f'{sv}[0] == self.pid', f'{pw} in {sv}'])
-    if sorted(norm(c) for c in _conjuncts(fw.test)) == want:
+    if cnorm(fw.test) == cnorm_text(f'{sv}[0] == self.pid and {pw} in {sv}'):
         rep.ok('HS1', wr, fw.test, 'keys are sent exactly for subsets owned by this party that contain the peer')
     else:
         rep.bad('HS1', wr, fw.test, f'writer filter `{norm(fw.test)}` is not "owner is me and peer is a member"')
@@ -679,7 +677,7 @@ def rule_KEY1(ctx, rep):
         rep.bad('KEY1', setter, lp.iter, f'key generation enumerates {gs} {ss}, the handshake {gw} {sw}: parties disagree on which subsets have keys')
     ifs = [s for s in lp.body if isinstance(s, ast.If)]
     sv = norm(lp.target)
-    if len(ifs) == 1 and len(lp.body) == 1 and norm(ifs[0].test) == f'{sv}[0] == self.pid':
+    if len(ifs) == 1 and len(lp.body) == 1 and cnorm(ifs[0].test) == cnorm_text(f'{sv}[0] == self.pid'):
         rep.ok('KEY1', setter, ifs[0].test, 'a key is generated by exactly one party: the lowest member of the subset')
     else:
         rep.bad('KEY1', setter, lp, 'keys are not generated exactly by the lowest member of each subset (the party that is client to all other members)')
